@@ -14,6 +14,7 @@ import (
 	"strings"
 
 	"github.com/foxboron/go-uefi/authenticode"
+	"github.com/foxboron/go-uefi/efi/signature"
 )
 
 // bad certificate fields among the table entries of an image (for the model's opaque certsOk)
@@ -272,6 +273,32 @@ func c03Eval(c *Ctx, cs Case) {
 			c.Trace()
 			if m, sp := askPeVerify(c, out, cert); m != got || (got == "ok true") != (sp == "true") {
 				c.Fail(Failure{Kind: "tie", What: fmt.Sprintf("step %d cert %d: Verify model/spec/implementation disagree", i, k), Case: cs, Model: m + " spec=" + sp, Go: got})
+			}
+		}
+		// the same questions asked of the very object that was signed (no re-parse): what Verify / Signatures
+		// answered between two signings must not stick
+		{
+			var sl []*signature.WINCertificate
+			var serr error
+			if pan, msg := safely(func() { sl, serr = p.Signatures() }); pan || serr != nil {
+				fail(fmt.Sprintf("step %d: Signatures() of the signed object failed", i), fmt.Sprint(msg, serr), "")
+			} else if len(sl) != len(oldEntries)+len(sigs) {
+				fail(fmt.Sprintf("step %d: Signatures() of the signed object lists %d entries", i, len(sl)), fmt.Sprint(len(sl)), fmt.Sprint(len(oldEntries)+len(sigs)))
+			}
+			for k := 0; k < 4; k++ {
+				cert, _ := certOf(k)
+				var ok bool
+				var verr error
+				if pan, _ := safely(func() { ok, verr = p.Verify(cert) }); pan {
+					fail(fmt.Sprintf("step %d: Verify on the signed object panicked", i), "panic", "")
+					continue
+				}
+				if signedBy[k] != (ok && verr == nil) {
+					fail(fmt.Sprintf("step %d: Verify on the signed object itself (certificate %d, signed by it: %v)", i, k, signedBy[k]), fmt.Sprint(ok, verr), fmt.Sprint(signedBy[k]))
+				}
+			}
+			if d := p.Hash(crypto.SHA256); !bytes.Equal(d, before) {
+				fail(fmt.Sprintf("step %d: Hash() of the signed object differs from the digest before signing", i), hx(d), hx(before))
 			}
 		}
 		// ---- byte-exact correspondence with the Lean model (no re-parsing on the model side) ----
